@@ -13,6 +13,7 @@ CONSTANTS
   FindUnitHoldsRLock = FALSE
   TruncFirst = FALSE
   UnregFirst = FALSE
+  ScanRegistersAlias = FALSE
   KF_EmptyStatus = FALSE
   KF_CancelOverS = FALSE
   CancelKeepsSucceeded = TRUE
